@@ -1,3 +1,4 @@
 -- Root of the `TrionModel` library: everything that `lake build` must check.
 import TrionModel.Props.C17
 import TrionModel.Props.C07
+import TrionModel.Props.C08
